@@ -38,7 +38,10 @@ def make_entry(route, ann, T, opts, wrap_bare=False):
             else:
                 judged = False
         if is_dc:
-            return Entry(lambda x: T.__from__(x, options=O()) if opts else type_transform(x, T), judged=True)
+            # raw data enters through __from__ (the documented way to pass runtime options); an object that
+            # already is an instance goes through the conversion entry (__from__ is "from data")
+            return Entry(lambda x: T.__from__(x, options=O()) if opts and not isinstance(x, T) else
+                         type_transform(x, T, options=O() if opts else None), judged=True)
         if route == "call" and isinstance(T, LogicalType):
             if opts:
                 return Entry(lambda x: T(x, context=O().make_context()), judged=judged)
